@@ -15,7 +15,7 @@ INNER_LIST = ['<<[k |-> "int"]>>', '<<[k |-> "int"], [k |-> "slice"]>>', '<<[k |
               '<<[k |-> "pint"], [k |-> "dash"], [k |-> "str"]>>', '<<[k |-> "map"], [k |-> "func"], [k |-> "time"]>>',
               '<<[k |-> "dashref"], [k |-> "int"]>>', '<<[k |-> "parr"], [k |-> "str"]>>']
 INNER = "{ %s }" % ", ".join(INNER_LIST)
-ALL_LEAF = '{"int","str","dur","time","slice","map","arr","pint","parr"}'
+ALL_LEAF = '{"int","str","dur","time","slice","map","arr","pint","parr","pkmap"}'
 ALL_SKIP = '{"dash","dashref","chan","func","unexp"}'
 ALL_STRUCT = '{"struct","pstruct","emb"}'
 
